@@ -21,7 +21,7 @@ theorem anchorIn_congr {l l' : Cells} (h : cids l' = cids l) {p : Pos} (hp : Anc
   · exact Or.inr ⟨h1, by rw [h]; exact h2⟩
 
 /-- a node that is not at the front is not the head -/
-theorem not_head_of_later {s : TextSt} (wf : WF s) {P Q : TextSt} {d : TNode} (hs : s = P ++ d :: Q)
+theorem not_head_of_later {s : TextSt} (wf : WFg s) {P Q : TextSt} {d : TNode} (hs : s = P ++ d :: Q)
     (hP : P ≠ []) : d.id ≠ headId := by
   obtain ⟨hd, r, hs', hid, _⟩ := wf.head
   intro e
@@ -37,7 +37,7 @@ theorem not_head_of_later {s : TextSt} (wf : WF s) {P Q : TextSt} {d : TNode} (h
     rw [hs'.1, hid, ← e]
     rw [ids_append]; simp
 
-theorem around_of {s : TextSt} (wf : WF s) {ts : Ticket} {a : Option Id} {A : TextSt} {cur : TNode}
+theorem around_of {s : TextSt} (wf : WFg s) {ts : Ticket} {a : Option Id} {A : TextSt} {cur : TNode}
     {C : TextSt} (hs : s = A ++ cur :: C) (hends : EndsAt cur A a)
     (hold : ∀ i, a = some i → i.1.after ts = false) :
     ∃ K D, C = K ++ D ∧ Around s ts a A cur K D ∧
@@ -53,13 +53,13 @@ theorem around_of {s : TextSt} (wf : WF s) {ts : Ticket} {a : Option Id} {A : Te
   · simp
 
 /-- the two `findNodeWithSplit` calls of `edit` / `styleWith` -/
-theorem two_fnws {s : TextSt} (wf : WF s) {fr to : Pos} (hfr : AnchorIn (abs s) fr)
+theorem two_fnws {s : TextSt} (wf : WFg s) {fr to : Pos} (hfr : AnchorIn (abs s) fr)
     (hto : AnchorIn (abs s) to) {ts : Ticket}
     (hold : ∀ j, anchorOf fr = some j ∨ anchorOf to = some j → j.1.after ts = false) :
     ∃ s1 l1 toRight s2 AF curF KF DF AT bT KT DT,
       findNodeWithSplit s to ts = .ok (s1, l1, toRight) ∧
       findNodeWithSplit s1 fr ts = .ok (s2, (KF.getLastD curF).id, DF.head?.map (·.id)) ∧
-      toRight = DT.head?.map (·.id) ∧ WF s2 ∧
+      toRight = DT.head?.map (·.id) ∧ WFg s2 ∧
       abs s2 = splitAfterO (anchorOf fr) (splitAfterO (anchorOf to) (abs s)) ∧
       Around s2 ts (anchorOf fr) AF curF KF DF ∧ Around s2 ts (anchorOf to) AT bT KT DT ∧
       (∀ x ∈ s2, ∃ m ∈ s, x.id.1 = m.id.1) := by
@@ -128,14 +128,14 @@ theorem Around.map {s : TextSt} {ts : Ticket} {a : Option Id} {A K D : TextSt} {
 
 /-- `Text.edit` with any version-vector argument, against any cell function that matches
     `removeNode` -/
-theorem edit_abs_gen {s : TextSt} (wf : WF s) {fr to : Pos} {content : List Nat}
+theorem edit_abs_gen {s : TextSt} (wf : WFg s) {fr to : Pos} {content : List Nat}
     {attrs : List (String × String)} {ts : Ticket} {vvo : Option VV} {f : Cell → Cell}
     (hgf : ∀ n, absNode (removeNode ts vvo n) = (absNode n).map f)
     (hfr : AnchorIn (abs s) fr) (hto : AnchorIn (abs s) to)
     (hold : ∀ j, anchorOf fr = some j ∨ anchorOf to = some j → j.1.after ts = false)
     (hfresh : Fresh s ts) (hc : Fixed content)
     (hnew : ∀ t, (∃ n ∈ s, n.id.1 = t) → t.after ts = true → ∀ c : Cell, c.id.1 = t → f c = c) :
-    ∃ s', edit fr to content attrs ts vvo s = .ok s' ∧ WF s' ∧
+    ∃ s', edit fr to content attrs ts vvo s = .ok s' ∧ WFg s' ∧
       abs s' = insAfter (anchorOf fr) ts (newCells ts content attrs)
         (rmap (anchorOf fr) (anchorOf to) f
           (splitAfterO (anchorOf fr) (splitAfterO (anchorOf to) (abs s)))) := by
@@ -147,7 +147,7 @@ theorem edit_abs_gen {s : TextSt} (wf : WF s) {fr to : Pos} {content : List Nat}
       intro n hn hnewer c hc
       obtain ⟨m, hm, e⟩ := tick n hn
       exact hnew n.id.1 ⟨m, hm, e.symm⟩ hnewer c (mem_absNode hc).1)
-  have wf3 := wf_map_keeps wf2 keeps
+  have wf3 := wfg_map_keeps wf2 keeps
   have hev : edit fr to content attrs ts vvo s =
       if content.isEmpty then
         .ok (s2.map (applyTo (between s2 (DF.head?.map (·.id)) (DT.head?.map (·.id)))
@@ -161,7 +161,7 @@ theorem edit_abs_gen {s : TextSt} (wf : WF s) {fr to : Pos} {content : List Nat}
     rw [hR]
   obtain ⟨s', hs'⟩ : ∃ s', edit fr to content attrs ts vvo s = .ok s' := by
     rw [hev]; split <;> exact ⟨_, rfl⟩
-  refine ⟨s', hs', wf_edit wf hfresh hc hs', ?_⟩
+  refine ⟨s', hs', wfg_edit wf hfresh hc hs', ?_⟩
   rw [hev] at hs'
   rw [← habs2, ← hrange]
   by_cases hce : content.isEmpty = true
@@ -182,13 +182,13 @@ theorem edit_abs_gen {s : TextSt} (wf : WF s) {fr to : Pos} {content : List Nat}
     exact this
 
 /-- **`Text.edit` refines the abstract edit** (remote execution, with the change's vector) -/
-theorem edit_abs {s : TextSt} (wf : WF s) {fr to : Pos} {content : List Nat}
+theorem edit_abs {s : TextSt} (wf : WFg s) {fr to : Pos} {content : List Nat}
     {attrs : List (String × String)} {ts : Ticket} {vv : VV}
     (hfr : AnchorIn (abs s) fr) (hto : AnchorIn (abs s) to)
     (hold : ∀ j, anchorOf fr = some j ∨ anchorOf to = some j → j.1.after ts = false)
     (hfresh : Fresh s ts) (hc : Fixed content)
     (hnew : ∀ n ∈ s, n.id.1.after ts = true → knownB vv n.id.1 = false) :
-    ∃ s', edit fr to content attrs ts (some vv) s = .ok s' ∧ WF s' ∧
+    ∃ s', edit fr to content attrs ts (some vv) s = .ok s' ∧ WFg s' ∧
       abs s' = insAfter (anchorOf fr) ts (newCells ts content attrs)
         (rmap (anchorOf fr) (anchorOf to) (delCell vv)
           (splitAfterO (anchorOf fr) (splitAfterO (anchorOf to) (abs s)))) :=
@@ -214,7 +214,7 @@ theorem absNode_removeNode_none (ts : Ticket) (n : TNode) :
 /-- **the author's local execution (`vv = nil`) and the execution with the change's vector have the
     same abstraction**, when the vector covers every node of the author's replica and the ticket is
     the newest -/
-theorem edit_local_eq_remote {s : TextSt} (wf : WF s) {fr to : Pos} {content : List Nat}
+theorem edit_local_eq_remote {s : TextSt} (wf : WFg s) {fr to : Pos} {content : List Nat}
     {attrs : List (String × String)} {ts : Ticket} {vv : VV}
     (hfr : AnchorIn (abs s) fr) (hto : AnchorIn (abs s) to)
     (hfresh : Fresh s ts) (hc : Fixed content)
@@ -262,13 +262,13 @@ theorem cids_Mof {f : Cell → Cell} (hf : ∀ c, (f c).id = c.id) (F T : Option
     cids (Mof F T f l) = cids l := by
   unfold Mof; rw [cids_rmap hf, cids_splitAfterO, cids_splitAfterO]
 
-theorem styleWith_abs {s : TextSt} (wf : WF s) {fr to : Pos} {g : List AttrNode → List AttrNode}
+theorem styleWith_abs {s : TextSt} (wf : WFg s) {fr to : Pos} {g : List AttrNode → List AttrNode}
     {ps : Puts} {ts : Ticket} {vv : VV}
     (hg : ∀ as, normAttrs (g as) = applyPuts ps (normAttrs as))
     (hfr : AnchorIn (abs s) fr) (hto : AnchorIn (abs s) to)
     (hold : ∀ j, anchorOf fr = some j ∨ anchorOf to = some j → j.1.after ts = false)
     (hnew : ∀ n ∈ s, n.id.1.after ts = true → existedB vv n.id.1 = false) :
-    ∃ s', styleWith fr to g ts (some vv) s = .ok s' ∧ WF s' ∧
+    ∃ s', styleWith fr to g ts (some vv) s = .ok s' ∧ WFg s' ∧
       abs s' = Mof (anchorOf fr) (anchorOf to) (styCell vv ps) (abs s) ∧
       (∀ x ∈ s', ∃ m ∈ s, x.id.1 = m.id.1) := by
   obtain ⟨s1, l1, toRight, s2, AF, curF, KF, DF, AT, bT, KT, DT, e1, e2, hR, wf2, habs2, hArF, hArT,
@@ -287,7 +287,7 @@ theorem styleWith_abs {s : TextSt} (wf : WF s) {fr to : Pos} {g : List AttrNode 
     rw [e1]; simp only
     rw [e2]; simp only
     rw [hR]
-  refine ⟨_, hev, wf_styleWith wf hev, ?_, ?_⟩
+  refine ⟨_, hev, wfg_styleWith wf hev, ?_, ?_⟩
   · unfold Mof; rw [← habs2, ← hrange]
   · intro x hx
     obtain ⟨y, hy, rfl⟩ := List.mem_map.1 hx
@@ -335,13 +335,13 @@ theorem styCell_append (vv : VV) (ps qs : Puts) (c : Cell) :
 
 /-- **`operations.Style.Execute` refines the abstract style operation** (one pass with the removals
     followed by the settings) -/
-theorem styleOp_abs {s : TextSt} (wf : WF s) {fr to : Pos} {attrs : List (String × String)}
+theorem styleOp_abs {s : TextSt} (wf : WFg s) {fr to : Pos} {attrs : List (String × String)}
     {keys : List String} {ts : Ticket} {vv : VV}
     (hne : attrs ≠ [] ∨ keys ≠ [])
     (hfr : AnchorIn (abs s) fr) (hto : AnchorIn (abs s) to)
     (hold : ∀ j, anchorOf fr = some j ∨ anchorOf to = some j → j.1.after ts = false)
     (hnew : ∀ n ∈ s, n.id.1.after ts = true → existedB vv n.id.1 = false) :
-    ∃ s', styleOp fr to attrs keys ts (some vv) s = .ok s' ∧ WF s' ∧
+    ∃ s', styleOp fr to attrs keys ts (some vv) s = .ok s' ∧ WFg s' ∧
       abs s' = Mof (anchorOf fr) (anchorOf to) (styCell vv (remPuts keys ts ++ setPuts attrs ts)) (abs s) := by
   have hset : ∀ as, normAttrs ((fun a => rhtSetAll a attrs ts) as) = applyPuts (setPuts attrs ts) (normAttrs as) :=
     fun as => norm_rhtSetAll attrs ts as
@@ -394,7 +394,7 @@ theorem styleNode_local {ts : Ticket} {vv : VV} {g : List AttrNode → List Attr
     simp only [e]
   unfold styleNode; rw [this]
 
-theorem styleWith_local {s : TextSt} (wf : WF s) {fr to : Pos} {g : List AttrNode → List AttrNode}
+theorem styleWith_local {s : TextSt} (wf : WFg s) {fr to : Pos} {g : List AttrNode → List AttrNode}
     {ts : Ticket} {vv : VV} (hcover : ∀ n ∈ s, existedB vv n.id.1 = true) :
     styleWith fr to g ts none s = styleWith fr to g ts (some vv) s ∧
       ∀ s', styleWith fr to g ts (some vv) s = .ok s' → ∀ x ∈ s', ∃ m ∈ s, x.id.1 = m.id.1 := by
@@ -409,8 +409,8 @@ theorem styleWith_local {s : TextSt} (wf : WF s) {fr to : Pos} {g : List AttrNod
     | ok r2 =>
       obtain ⟨s2, fl, fromRight⟩ := r2
       simp only
-      obtain ⟨wf1, t1⟩ := fnws_wf wf h1
-      obtain ⟨_, t2⟩ := fnws_wf wf1 h2
+      obtain ⟨wf1, t1⟩ := fnws_wfg wf h1
+      obtain ⟨_, t2⟩ := fnws_wfg wf1 h2
       have tick : ∀ x ∈ s2, ∃ m ∈ s, x.id.1 = m.id.1 := by
         intro x hx
         obtain ⟨m, hm, e⟩ := t2 x hx
@@ -433,7 +433,7 @@ theorem styleWith_local {s : TextSt} (wf : WF s) {fr to : Pos} {g : List AttrNod
 
 /-- **the author's local `Style` (`vv = nil`) is the same call as with the change's vector**, when the
     vector covers every node of the author's replica -/
-theorem styleOp_local {s : TextSt} (wf : WF s) {fr to : Pos} {attrs : List (String × String)}
+theorem styleOp_local {s : TextSt} (wf : WFg s) {fr to : Pos} {attrs : List (String × String)}
     {keys : List String} {ts : Ticket} {vv : VV} (hcover : ∀ n ∈ s, existedB vv n.id.1 = true) :
     styleOp fr to attrs keys ts none s = styleOp fr to attrs keys ts (some vv) s := by
   unfold styleOp
@@ -454,7 +454,7 @@ theorem styleOp_local {s : TextSt} (wf : WF s) {fr to : Pos} {attrs : List (Stri
       by_cases ha : attrs.isEmpty = true
       · rw [if_pos ha, if_pos ha]
       · rw [if_neg ha, if_neg ha]
-        have wf1 := wf_styleWith wf h
+        have wf1 := wfg_styleWith wf h
         exact (styleWith_local wf1 (by
           intro n hn
           obtain ⟨m, hm, e⟩ := h1.2 s1 h n hn
